@@ -162,6 +162,9 @@ pub fn run(ctx: &'static Ctx) {
     let nraw = raw_forms(ctx);
     ctx.st(nraw);
     ctx.engine("E3.raw-forms", json!({"objects": nraw, "types": 23}));
+    let nst = crate::props::standalone::sinks(ctx);
+    ctx.st(nst);
+    ctx.engine("E3.standalone-structures", json!({"objects": nst, "what": "PCI-config GAS, HEST error status block and data entry (with payloads) through the sink matrix"}));
 
     // ---- AML programs of the C06 families (root object handed to every sink) and C10 descriptors
     let f = gen::fillers();
